@@ -5,6 +5,7 @@ use vstd::prelude::*;
 verus! {
 use vstd::std_specs::cmp::{OrdSpec, PartialOrdSpec};
 use core::cmp::Ordering;
+use std::collections::BTreeSet;
 
     // [trusted:stand-in] bitcoin::Network — same five variants as bitcoin-dogecoin 0.32.7
     #[derive(Clone, Copy, PartialEq, Eq, Structural)]
@@ -391,6 +392,100 @@ impl<T: HeaderStore> HeaderValidator<T> {
 //@| ensures
 //@|     r == retarget_bits(self.network, self.store.chain()),
 //@end
+}
+
+// ---------------------------------------------------------------------------------------
+// C12: block body checks (validation/src/block/mod.rs)
+// ---------------------------------------------------------------------------------------
+// [trusted:stand-in] normalised txid (bitcoin::hashes::sha256d::Hash) — totally ordered value
+type Ntxid = u64;
+// [trusted:stand-in] bitcoin::Transaction — opaque; only is_coinbase / compute_ntxid are used
+struct Transaction { id: u64 }
+impl Transaction {
+    uninterp spec fn is_coinbase_spec(&self) -> bool;
+    uninterp spec fn ntxid_spec(&self) -> Ntxid;
+    // [trusted:assumed-spec] Transaction::is_coinbase (rust-bitcoin)
+    #[verifier::external_body]
+    fn is_coinbase(&self) -> (r: bool) ensures r == self.is_coinbase_spec() { unimplemented!() }
+    // [trusted:assumed-spec] Transaction::compute_ntxid (rust-bitcoin): a function of the transaction
+    #[verifier::external_body]
+    fn compute_ntxid(&self) -> (r: Ntxid) ensures r == self.ntxid_spec() { unimplemented!() }
+}
+// [trusted:stand-in] bitcoin::Block {header, txdata}
+struct Block { header: Header, txdata: Vec<Transaction> }
+impl Block {
+    uninterp spec fn merkle_ok(&self) -> bool;
+    // [trusted:assumed-spec] Block::check_merkle_root (rust-bitcoin): uninterpreted predicate of the block
+    #[verifier::external_body]
+    fn check_merkle_root(&self) -> (r: bool) ensures r == self.merkle_ok() { unimplemented!() }
+}
+
+//@extract file=validation/src/block/mod.rs item="enum ValidateBlockError"
+//@end
+
+// written from the statement of C12
+spec fn distinct_ntxids(txs: Seq<Transaction>) -> bool {
+    forall|i: int, j: int| 0 <= i < j < txs.len() ==> txs[i].ntxid_spec() != txs[j].ntxid_spec()
+}
+spec fn block_body_spec(b: Block) -> Option<ValidateBlockError> {
+    if b.txdata@.len() == 0 { Some(ValidateBlockError::NoTransactions) }
+    else if !b.txdata@[0].is_coinbase_spec() { Some(ValidateBlockError::InvalidCoinbase) }
+    else if !b.merkle_ok() { Some(ValidateBlockError::InvalidMerkleRoot) }
+    else if !distinct_ntxids(b.txdata@) { Some(ValidateBlockError::DuplicateTransactions) }
+    else { None }
+}
+
+//@extract file=validation/src/block/mod.rs item="fn validate_block" props=C12
+//@ ret r
+//@ sigrewrite R3 "&bitcoin::Block" => "&Block"
+//@ spec
+//@| ensures
+//@|     r.is_ok() <==> block_body_spec(*block).is_none(),
+//@|     r matches Err(e) ==> block_body_spec(*block) == Some(e),
+//@end
+
+//@extract file=validation/src/block/mod.rs item="fn ensure_unique_transactions" props=C12
+//@ ret r
+//@ spec
+//@| ensures
+//@|     r.is_ok() <==> distinct_ntxids(transactions@),
+//@|     r matches Err(e) ==> e == ValidateBlockError::DuplicateTransactions,
+//@ loop 1 binder=it
+//@| invariant
+//@|     forall|k: Ntxid| unique_normalized_txids@.contains(k) <==> exists|i: int| 0 <= i < it.index@ && transactions@[i].ntxid_spec() == k,
+//@|     forall|i: int, j: int| 0 <= i < j < it.index@ ==> transactions@[i].ntxid_spec() != transactions@[j].ntxid_spec(),
+//@end
+
+//@extract file=validation/src/block/mod.rs item="struct BlockValidator"
+//@end
+impl<T: HeaderStore> BlockValidator<T> {
+//@extract file=validation/src/block/mod.rs in="impl<T: HeaderStore> BlockValidator<T>" item="fn validate_block" props=C12,C10
+//@ ret r
+//@ sigrewrite R3 "&bitcoin::Block" => "&Block"
+//@ rewrite R10 "self\.header_validator\s*\.validate_header\(&block\.header, current_time\)\s*\.map_err\(ValidateBlockError::InvalidBlockHeader\)\s*\.and_then\(\|\(\)\| validate_block\(block\)\)" => "match self.header_validator.validate_header(&block.header, current_time) { Ok(()) => validate_block(block), Err(e) => Err(ValidateBlockError::InvalidBlockHeader(e)) }"
+//@ spec
+//@| requires
+//@|     chain_wf(self.header_validator.store.chain()),
+//@|     self.header_validator.extends_tip(block.header),
+//@|     current_time.secs < 0x7fff_ffff_ffff_0000,
+//@| ensures
+//@|     r.is_ok() <==> (accept_spec(self.header_validator.network, self.header_validator.store.chain(), block.header, current_time.secs).is_none()
+//@|                     && block_body_spec(*block).is_none()),
+//@|     r matches Err(e) ==> (match accept_spec(self.header_validator.network, self.header_validator.store.chain(), block.header, current_time.secs) {
+//@|         Some(he) => e == ValidateBlockError::InvalidBlockHeader(he),
+//@|         None => block_body_spec(*block) == Some(e),
+//@|     }),
+//@end
+}
+
+//@lemma fn=lemma_cve_2012_2459 props=C12
+// CVE-2012-2459 family: ANY transaction list in which one transaction occurs at two positions is refused,
+// whatever its merkle root and whatever the parity of the list at any tree level.
+proof fn lemma_cve_2012_2459(b: Block, i: int, j: int)
+    requires 0 <= i < j < b.txdata@.len(), b.txdata@[i] == b.txdata@[j],
+    ensures block_body_spec(b).is_some(),
+{
+    assert(b.txdata@[i].ntxid_spec() == b.txdata@[j].ntxid_spec());
 }
 
 proof fn vp_canary_axioms()
